@@ -28,6 +28,8 @@ def hs_model_kind(arg):
     kind, form = hs_kind(arg)
     if kind in (1, 2) and not TOK["registers"][form % len(TOK["registers"])]:
         return 3        # ClientID 0 with a token that does not register: charged, then `client not found`
+    if kind == 6:
+        return 0        # a non-zero unknown client id, whatever token comes with it: not a registration, never charged
     if kind in (3, 4, 5):
         return kind + 1 + 10 * form     # phase 1 / phase 2 wrong / phase 2 correct on the long-lived connection `form`
     return kind
@@ -84,6 +86,8 @@ class Script:
     def op(self, name, ip=1, arg=0):
         if name == "hs" and arg in (1, 2) and self.rng.random() < 0.6:
             arg += 10 * self.rng.randrange(len(TOK["forms"]))      # any candidate token form of a ClientID 0 handshake
+            if self.rng.random() < 0.2:
+                arg = 6 + 10 * (arg // 10)                          # the same token sent with a stale NON-ZERO client id
         self.ops.append({"at": self.at(), "op": name, "ip": ip, "arg": arg})
         self.k += 1
         if self.k >= 5:
@@ -390,7 +394,7 @@ def gen_regrate(rng, cfg):
     for _ in range(rng.randrange(2, 5)):
         for _ in range(rng.randrange(3, 9)):
             f = rng.choice(reg_forms) if rng.random() < 0.75 else rng.randrange(nf)
-            s.ops.append({"at": s.at(), "op": "hs", "ip": a, "arg": rng.choice([1, 1, 1, 2]) + 10 * f})
+            s.ops.append({"at": s.at(), "op": "hs", "ip": a, "arg": rng.choice([1, 1, 1, 2, 6, 6]) + 10 * f})
             s.k += 1
             if s.k >= 5:
                 s.wait(1)
@@ -655,7 +659,7 @@ def spec_check(case, obs):
                 adm.append((x["t0"], x["t1"], o["arg"]))
             elif mine and name == "hs" and hs_kind(o["arg"])[0] in (1, 2) and x["r"] in (3, 4):
                 adm.append((x["t0"], x["t1"], 1))
-            if mine and name == "hs" and x["r"] == 4 and hs_kind(o["arg"])[0] in (1, 2):
+            if mine and name == "hs" and x["r"] == 4 and hs_kind(o["arg"])[0] in (1, 2, 6):
                 regs.append((x["t0"], x["t1"], 1, TOK["forms"][hs_kind(o["arg"])[1] % len(TOK["forms"])]))
         reg_bound(ip, regs)
         bucket_bound(ip, adm)
@@ -733,6 +737,7 @@ def run(ctx, only_cases=None):
         cases += [{"kind": "shadow", "which": w, "trials": trials} for w in ("exact", "range")]
         cases += [{"kind": "sweeprace", "which": w, "trials": 12 if thorough else 4, "keys": 3000} for w in ("ban", "bl")]
         cases.append({"kind": "addr"})
+        cases.append({"kind": "storeorder", "trials": 6 if thorough else 2})
         for n in ([1000, 49999, 50000, 65536, 131072] if thorough else [1000, 50000, 65536]):
             cases.append({"kind": "crowd", "entry": ctx.rng.choice(["allowip", "allowip", "allowtunnel"]), "keys": n,
                           "cfg": {"rate": 1, "burst": 3, "ttl_ms": 600000}})
@@ -757,6 +762,13 @@ def run(ctx, only_cases=None):
                 ctx.violation(key, "%s: the entry established right after the query was gone in %d of %d trials (the removal "
                               "spawned by the query on the expired entry deleted it)" % (what, o["lost"], o["trials"]),
                               {"case": c, "observed": o})
+        elif c["kind"] == "storeorder":
+            ambiguous_trials += o["pre_not_expired"]
+            if o["lost"] > 0 or o["pre_not_expired"] > 0:
+                ctx.violation("blacklist-writes-reordered", "AddToBlacklist(ip, 120ms) then AddToBlacklist(ip, permanent) over a store that delays the first "
+                              "write of a key until a later write of it has completed; 450 ms later a manager rebuilt from the store let the address "
+                              "through in %d of %d trials (live manager: %d) - the store kept the temporary record"
+                              % (o["lost"], o["trials"], o["pre_not_expired"]), {"case": c, "observed": o})
         elif c["kind"] == "crowd":
             cf, adm, el = c["cfg"], o["admitted"][0], o["elapsed_ns"][0]
             crowd_rounds.append({"others": c["keys"], "let_through": adm, "elapsed_ms": round(el / MS, 1)})
